@@ -209,6 +209,25 @@ def run(prog, rep, tier):
                     check_v3(rep, E, st, pre, post, mode, label, evb, spec, site)
     rep.floor('update() obligations', nobl, 20)
     rep.extra['input_classes_run'] = ncls
+    v4_render(prog, rep)
+
+
+def v4_render(prog, rep):
+    """V4 (after seed C17-s7): the render step that follows every handled event rebuilds `items` and may re-align
+    the selection (table.rs build_table).  For an arbitrary application state - any number of rows, including none -
+    the integer arithmetic of build_table's own body (not of the cell renderers or of ratatui) cannot overflow or
+    divide by zero: `len - 1` on an emptied table is the realistic defect here."""
+    bt = util.find_fn(prog, 'table::build_table', crate='jet1090')
+    if bt is None:
+        rep.missing('table::build_table')
+        return
+    E = runner.make_engine(prog, K=8)
+    runner.run_entry(E, bt)
+    total = len(E.obligations())
+    rep.floor('obligations evaluated below build_table', total, 100)
+    n = rep.absorb_engine(E, rule='V4-render-arithmetic',
+                          keyfilter=lambda o: o['fn'] == bt['name'] and o['kind'].split('(')[0] in ('Overflow', 'DivisionByZero', 'RemainderByZero'))
+    rep.ok('V4-render-arithmetic', 'build_table#analysed', True, {'obligations_below_build_table': total, 'own_arithmetic_obligations': n})
 
 
 def rule_for(spec, mode, label):
